@@ -46,7 +46,7 @@ def confirm(wt, sid):
 
 
 def run(ids, on_repo):
-    dirs = sorted(glob.glob(os.path.join(ROOT, "seeded", "*")))
+    dirs = sorted(d for d in glob.glob(os.path.join(ROOT, "seeded", "C*")) if os.path.isdir(d))
     res = []
     for d in dirs:
         sid = os.path.basename(d)
@@ -88,5 +88,12 @@ if __name__ == "__main__":
     elif sys.argv[1] == "run":
         ids = [a for a in sys.argv[2:] if not a.startswith("--")]
         r = run(ids, "--repo" in sys.argv)
-        os.makedirs(os.path.join(ROOT, ".work"), exist_ok=True)
-        json.dump(r, open(os.path.join(ROOT, ".work", "seeded_last.json"), "w"), indent=1)
+        # committed record of the latest outcome per seeded change (first outcome is kept separately)
+        rp = os.path.join(ROOT, "seeded", "results.json")
+        res = json.load(open(rp)) if os.path.exists(rp) else {}
+        for sid, prop, status, viol in r:
+            e = res.setdefault(sid, {"property": prop, "first": status})
+            e["latest"] = status
+            e["caught_by"] = viol
+            e["mode"] = "git apply on /repo" if "--repo" in sys.argv else "scratch copy + patch"
+        json.dump(res, open(rp, "w"), indent=1, sort_keys=True)
